@@ -1,6 +1,6 @@
 (** C14 - Manifests, CRLs and signed objects are refreshed in time with rising numbers.
-    Only statements; proofs in ca/CaObjProofs.v. *)
-From KV Require Import base.Tac ca.Ca ca.CaProofs ca.CaObjProofs.
+    Only statements; proofs in ca/CaObjProofs.v and ca/CaDueProofs.v. *)
+From KV Require Import base.Tac ca.Ca ca.CaProofs ca.CaObjProofs ca.CaCheck ca.CaDueProofs.
 Open Scope N_scope.
 
 (** A class is re-issued iff forced or one of its key sets (current, staging, old) is within the margin
@@ -46,6 +46,15 @@ Theorem C14_nothing_expiring_nothing_renewed : forall th l,
   (forall n o, In (n, o) l -> (th <= o_exp o)%Z) -> renew_names false th l = [].
 Proof. exact nothing_expiring_nothing_renewed. Qed.
 
+(** The executable oracle evaluated on the implementation's object stores (every due or forced class has ALL its
+    sets at number + 1 after a maintenance run, every other class keeps its numbers) is what the model's run
+    satisfies, for every store with distinct keys, every clock, margin and force flag. *)
+Theorem C14_maintenance_run_meets_due_oracle : forall now margin next force objs,
+  NoDup (map s_key (all_sets objs)) ->
+  due_ok_objs now margin force objs (re_issue (mkEnv now margin next) force objs) = true.
+Proof. exact reissue_meets_due_ok. Qed.
+
+Print Assumptions C14_maintenance_run_meets_due_oracle.
 Print Assumptions C14_renew_due_iff.
 Print Assumptions C14_nothing_expiring_nothing_renewed.
 Print Assumptions C14_due_iff.
